@@ -128,6 +128,242 @@ class StringParse(FnSpec):
         return [("text-goes-through-the-constructor", z3.BoolVal(isinstance(res, Tok) and res.eq(want)), "a text is handed to the target class's constructor unchanged (no stripping, no case folding)")]
 
 
+# ---- schema/parser.py: the generic parser protocol ----------------------------------------------------------------------------------------------------------------
+class BaseParse(FnSpec):
+    file = "schema/parser.py"
+    qual = "BaseParser.parse"
+    props = ("C12",)
+
+    def init(self):
+        self.bindings["type"] = lambda cx, o: type("T", (SVal,), {"py_getattr": lambda s, cx2, n: "<type name>"})()
+
+    def setup(self, cx):
+        a = _setup(cx)
+        a["target"] = a.pop("tcls")
+        if cx.choose(2) == 1:
+            a["target"] = None
+            a.no_target = True
+        else:
+            a.no_target = False
+        return a
+
+    def raises(self, cx, a):
+        return {"TypeError": z3.BoolVal(not a.no_target and a.kind != "obj")}
+
+    def ensures(self, cx, a, res):
+        return [("an-instance-of-the-target-passes-unchanged", z3.BoolVal(res is a.v), "the default parser hands an instance of the target class back as it is and refuses everything else (so what it produces it also accepts)")]
+
+
+class RunParser(FnSpec):
+    file = "schema/parser.py"
+    qual = "run_parser"
+    props = ("C12",)
+
+    def init(self):
+        self.bindings["type"] = lambda cx, o: type("T", (SVal,), {"py_getattr": lambda s, cx2, n: "<type name>"})()
+
+    def setup(self, cx):
+        strict = cx.choose(2) == 1
+        out_kind = ["obj", "other"][cx.choose(2)]
+
+        class ParserCls(SVal):
+            def py_getattr(s, cx2, n):
+                if n == "strict":
+                    return strict
+                raise Unsupported("parser attribute " + n)
+
+            def meth_parse(s, cx2, target, value):
+                cx2.effect("parse", target, value)
+                return self.out
+
+        self.out = Input(out_kind)
+        a = A(cls=ParserCls(), target=TargetCls(), value=Input("str"))
+        a.strict, a.out_kind = strict, out_kind
+        return a
+
+    def raises(self, cx, a):
+        return {"RuntimeError": z3.BoolVal(a.strict and a.out_kind != "obj")}
+
+    def ensures(self, cx, a, res):
+        p = [e for e in cx.fx if e[0] == "parse"]
+        return [("the-parser-s-result-for-that-target-and-value", z3.BoolVal(len(p) == 1 and p[0][1] is a.target and p[0][2] is a.value and res is self.out), "the value is parsed once, by the class's own parser, for the field's type; a strict parser (the default) must NORMALISE: a result that is not an instance of the target is an error, never passed on")]
+
+
+class GetParser(FnSpec):
+    file = "schema/parser.py"
+    qual = "get_parser"
+    props = ("C12",)
+
+    def init(self):
+        self.bindings["BaseParser"] = SClass("BaseParser")
+        self.bindings["issubclass"] = lambda cx, c, b: c.is_parser if isinstance(c, InnerCls) and getattr(b, "name", None) == "BaseParser" else (_ for _ in ()).throw(Unsupported("issubclass of something else"))
+
+    def setup(self, cx):
+        kind = ["none", "parser", "other", "inherited"][cx.choose(4)]
+        inner = None if kind in ("none", "inherited") else InnerCls(kind == "parser")
+        inherited = InnerCls(True) if kind == "inherited" else None  # what attribute lookup on the class finds in a base class
+
+        class ClsDict(SVal):
+            def meth_get(s, cx2, k):
+                if k != "Parser":
+                    raise Unsupported("another key of the class dict")
+                return inner
+
+        class TheCls(SVal):
+            def py_getattr(s, cx2, n):
+                if n == "__dict__":
+                    return ClsDict()
+                if n == "Parser":
+                    if inner is None and inherited is None:
+                        cx2.py_raise("AttributeError", "Parser")
+                    return inner if inner is not None else inherited
+                raise Unsupported("class attribute " + n)
+
+        a = A(cls=TheCls())
+        a.kind, a.inner = kind, inner
+        return a
+
+    def raises(self, cx, a):
+        return {"TypeError": z3.BoolVal(a.kind == "other")}
+
+    def ensures(self, cx, a, res):
+        return [("own-inner-parser-or-none", z3.BoolVal(res is a.inner), "only a Parser defined in the class ITSELF counts (looked up in its own __dict__, not inherited); one that is not a BaseParser is an error, not ignored")]
+
+
+class InnerCls(SVal):
+    def __init__(self, is_parser):
+        self.is_parser = is_parser
+
+    def py_truth(self, cx):
+        return True
+
+    def py_getattr(self, cx, n):
+        if n == "__name__":
+            return "Parser"
+        raise Unsupported("inner class attribute " + n)
+
+
+class PintParse(FnSpec):
+    file = "schema/types.py"
+    qual = "PintParser.parse"
+    props = ("C12",)
+
+    def setup(self, cx):
+        a = _setup(cx)
+        a.outcome = ["ok", "TypeError", "ValueError", "OtherError"][cx.choose(4)]
+        cx.ghost["pint_outcome"] = a.outcome
+        a.empty = z3.Not(z3.Bool("input_text_is_not_empty"))
+        return a
+
+    def raises(self, cx, a):
+        is_empty_text = z3.And(z3.BoolVal(a.kind == "str"), a.empty)
+        o = a.outcome
+        return {"ValueError": z3.Or(is_empty_text, z3.BoolVal(o in ("ValueError", "OtherError"))), "TypeError": z3.And(z3.Not(is_empty_text), z3.BoolVal(o == "TypeError"))}
+
+    def on_raise(self, cx, a, exc):
+        called = [e for e in cx.fx if e[0] == "super-parse"]
+        is_empty_text = z3.And(z3.BoolVal(a.kind == "str"), a.empty)
+        return [("an-empty-text-is-refused-before-pint-sees-it", z3.Implies(is_empty_text, z3.BoolVal(not called)), "an empty string never reaches pint (which would read it as a dimensionless 1)")]
+
+    def ensures(self, cx, a, res):
+        called = [e for e in cx.fx if e[0] == "super-parse"]
+        return [("otherwise-the-string-parser-s-result", z3.BoolVal(len(called) == 1 and called[0][1] is a.tcls and called[0][2] is a.v and res == "string-parser-result" and a.outcome == "ok"), "every other input goes through StringParser.parse unchanged; failures inside pint surface as ValueError (pydantic turns those into validation errors), TypeError / ValueError pass as they are")]
+
+
+class GetValidators(FnSpec):
+    file = "schema/parser.py"
+    qual = "ParserMixin.__get_validators__"
+    props = ("C12",)
+
+    def init(self):
+        self.bindings["BaseModel"] = SClass("BaseModel")
+        self.bindings["NoParserDefined"] = "NoParserDefined-marker"
+        self.bindings["issubclass"] = lambda cx, c, b: c.is_model if getattr(b, "name", None) == "BaseModel" else (_ for _ in ()).throw(Unsupported("issubclass of something else"))
+        self.bindings["get_parser"] = lambda cx, c: (cx.effect("get_parser", c), c.parser)[1]
+        self.bindings["run_parser"] = lambda cx, p, t, v: (cx.effect("run_parser", p, t, v), "parsed-value")[1]
+
+    def setup(self, cx):
+        cached = ["nothing", "a-func", "no-parser-marker"][cx.choose(3)]
+        has_parser = cx.choose(2) == 1
+        is_model = cx.choose(2) == 1
+        store = {}
+        if cached == "a-func":
+            store["__parser_func__"] = "cached-parser-func"
+        elif cached == "no-parser-marker":
+            store["__parser_func__"] = "NoParserDefined-marker"
+
+        class ClsDict(SVal):
+            def meth_get(s, cx2, k):
+                return store.get(k)
+
+        class TheCls(SVal):
+            parser = "the-inner-parser" if has_parser else None
+
+            def __init__(s):
+                s.is_model = is_model
+
+            def py_getattr(s, cx2, n):
+                if n == "__dict__":
+                    return ClsDict()
+                if n == "validate":
+                    return "cls.validate"
+                raise Unsupported("class attribute " + n)
+
+            def py_setattr(s, cx2, n, v):
+                cx2.effect("cache", n, v)
+                store[n] = v
+
+        a = A(cls=TheCls())
+        a.cached, a.has_parser, a.is_model, a.store = cached, has_parser, is_model, store
+        return a
+
+    def raises(self, cx, a):
+        return {}
+
+    def ensures(self, cx, a, res):
+        from pyvc.engine import Closure
+
+        ys = [v for k, v in getattr(cx, "yielded", []) if k == "one"]
+        want_model = ["cls.validate"] if a.is_model else []
+        out = []
+        if a.cached == "a-func":
+            ok = ys == ["cached-parser-func"] + want_model and not [e for e in cx.fx if e[0] in ("get_parser", "cache")]
+            out.append(("a-cached-parser-function-is-reused", z3.BoolVal(bool(ok)), "the validator built once for a class is reused"))
+        elif a.cached == "no-parser-marker" or not a.has_parser:
+            ok = ys == want_model
+            out.append(("without-a-parser-only-the-model-s-own-validation", z3.BoolVal(bool(ok)), "a class without its own Parser contributes no parser validator; a model still validates as a model"))
+            if a.cached == "nothing":
+                out.append(("the-absence-is-cached-too", z3.BoolVal(a.store.get("__parser_func__") == "NoParserDefined-marker"), ""))
+        else:
+            ok = len(ys) == 1 + len(want_model) and isinstance(ys[0], Closure) and ys[1:] == want_model and a.store.get("__parser_func__") is ys[0]
+            out.append(("with-a-parser-its-validator-comes-first-and-is-cached", z3.BoolVal(bool(ok)), "the parser validator runs BEFORE the model's own validation (so the parser can normalise the input first)"))
+            if ok:
+                class Field(SVal):
+                    def py_getattr(s, cx2, n):
+                        if n == "type_":
+                            return "the-field-type"
+                        raise Unsupported("field attribute " + n)
+
+                before = len(cx.fx)
+                r = cx.run.interp.call_closure(cx, ys[0], [a.cls, "the-value"], {"field": Field()})
+                rp = [e for e in cx.fx[before:] if e[0] == "run_parser"]
+                out.append(("the-validator-runs-the-class-s-own-parser-for-the-field-type", z3.BoolVal(len(rp) == 1 and rp[0][1] == "the-inner-parser" and rp[0][2] == "the-field-type" and rp[0][3] == "the-value" and r == "parsed-value"), "the validator handed to pydantic is run_parser(<the class's own Parser>, <the field's type>, value)"))
+        return out
+
+
+def add_parsers(reg):
+    def super_parse(cx, obj, tcls, v):
+        a = [x for x in [cx.ghost.get("pint")] if x is not None]
+        cx.effect("super-parse", tcls, v)
+        o = cx.ghost["pint_outcome"]
+        if o == "ok":
+            return "string-parser-result"
+        cx.py_raise({"TypeError": "TypeError", "ValueError": "ValueError", "OtherError": "UndefinedUnitError"}[o], "failure inside pint")
+
+    reg.method_bindings[("PintParser", "super.parse")] = super_parse
+    return [BaseParse(), RunParser(), GetParser(), PintParse(), GetValidators()]
+
+
 def add_valuetypes(reg):
     specs = [DurationParse(), StringParse()]
     for s in specs:
